@@ -327,6 +327,25 @@ func (s *subject) tcVariants() []variant[*hotstuffpb.TimeoutCert] {
 	return out
 }
 
+// genuineTCs returns real timeout certificates for the views cur-1 (stale), cur, cur+1 and cur+3.
+func (s *subject) genuineTCs() []variant[*hotstuffpb.TimeoutCert] {
+	cur := s.node.VS.View()
+	var out []variant[*hotstuffpb.TimeoutCert]
+	for _, d := range []int{-1, 0, 1, 3} {
+		v := hotstuff.View(int(cur) + d)
+		if v < 1 {
+			continue
+		}
+		tms := s.w.HonestTimeouts(v, vk.IDs(s.w.N)[1:s.w.Q()+1], func(hotstuff.ID) hotstuff.QuorumCert { return hotstuff.NewQuorumCert(nil, 0, hotstuff.GetGenesis().Hash()) }, s.agg)
+		tc, err := s.w.M(2).Auth.CreateTimeoutCert(v, tms)
+		if err != nil {
+			continue
+		}
+		out = append(out, variant[*hotstuffpb.TimeoutCert]{fmt.Sprintf("genuine-cur%+d", d), hotstuffpb.TimeoutCertToProto(tc), true})
+	}
+	return out
+}
+
 func (s *subject) aggVariants() []variant[*hotstuffpb.AggQC] {
 	cur := s.node.VS.View()
 	genQC := hotstuff.NewQuorumCert(nil, 0, hotstuff.GetGenesis().Hash())
@@ -409,6 +428,15 @@ func (s *subject) enumerate() []wireCase {
 			cs = append(cs, wireCase{"newview", fmt.Sprintf("newview/qc=%s/tc=%s", q.name, tc.name), &hotstuffpb.SyncInfo{QC: q.val, TC: tc.val}, q.valid || tc.valid})
 		}
 	}
+	// genuine timeout certificates of an older, the current and later views next to every QC variant: the valid part may move
+	// the view, the part that does not verify must be ignored
+	for _, tc := range s.genuineTCs() {
+		for _, q := range qcsFull {
+			cs = append(cs, wireCase{"newview", fmt.Sprintf("newview/qc=%s/tc=%s", q.name, tc.name), &hotstuffpb.SyncInfo{QC: q.val, TC: tc.val}, true})
+			vsig, _ := s.w.M(3).Auth.Sign(s.node.VS.View().ToBytes())
+			cs = append(cs, wireCase{"timeout", fmt.Sprintf("timeout/syncinfo/qc=%s/tc=%s", q.name, tc.name), &hotstuffpb.TimeoutMsg{View: uint64(s.node.VS.View()), ViewSig: hotstuffpb.QuorumSignatureToProto(vsig), SyncInfo: &hotstuffpb.SyncInfo{QC: q.val, TC: tc.val}}, true})
+		}
+	}
 	for _, a := range aggs {
 		for _, tc := range tcs[:4] {
 			cs = append(cs, wireCase{"newview", fmt.Sprintf("newview/tc=%s/aggqc=%s", tc.name, a.name), &hotstuffpb.SyncInfo{TC: tc.val, AggQC: a.val}, a.valid || tc.valid})
@@ -454,6 +482,8 @@ func (s *subject) enumerate() []wireCase {
 	}
 	return cs
 }
+
+func first(v vk.Verdict, _ map[hotstuff.ID]bool) vk.Verdict { return v }
 
 func hashOf(b *hotstuff.Block) []byte { h := b.Hash(); return h[:] }
 
@@ -520,6 +550,21 @@ func verifWire(p vbase.Params, r *vbase.Result) {
 							subj = nil
 							continue
 						}
+						// whatever else the message carried: a certificate the replica could not validate must have been ignored
+						// (genuine certificates were signed either in this replica's world or in the probe's, which share the keys)
+						if v, signers := subj.w.TrueQC(subj.node.VS.HighQC()); v == vk.MustReject && first(probe.w.TrueQC(subj.node.VS.HighQC())) == vk.MustReject {
+							r.Violate(vbase.Sig("unvalidated-installed", "what", "highqc", "msg", c.kind), fmt.Sprintf("after %s message %q the replica holds a high QC (view %d) that is not a valid certificate (%d real signers) (state %s, %s, cache %d, aggregate=%v)",
+								c.kind, c.name, subj.node.VS.HighQC().View(), len(signers), state, scheme, cache, agg), rep)
+							subj = nil
+							continue
+						}
+						if v, signers := subj.w.TrueTC(subj.node.VS.HighTC()); v == vk.MustReject && first(probe.w.TrueTC(subj.node.VS.HighTC())) == vk.MustReject {
+							r.Violate(vbase.Sig("unvalidated-installed", "what", "hightc", "msg", c.kind), fmt.Sprintf("after %s message %q the replica holds a high TC (view %d) that is not a valid certificate (%d real signers) (state %s, %s, cache %d, aggregate=%v)",
+								c.kind, c.name, subj.node.VS.HighTC().View(), len(signers), state, scheme, cache, agg), rep)
+							subj = nil
+							continue
+						}
+						r.Obs("held_certificates_checked", 2)
 						if !c.valid && before != after {
 							r.Violate(vbase.Sig("state-disturbed", "msg", c.kind), fmt.Sprintf("%s message %q in which nothing verifies changed the protocol state: %s -> %s (state %s, %s, cache %d, aggregate=%v)", c.kind, c.name, before, after, state, scheme, cache, agg), rep)
 						}
